@@ -134,21 +134,29 @@ def audit_tokens():
     return bad
 
 
+def prop_files(prop):
+    """Props/<prop>.lean plus supplementary Props/<prop>_*.lean (theorems of the same property that need later modules)"""
+    d = os.path.join(LEAN, "FlatccModel", "Props")
+    return [prop] + sorted(f[:-5] for f in os.listdir(d) if f.startswith(prop + "_") and f.endswith(".lean"))
+
+
 def prop_theorems(prop):
-    """Names (fully qualified) of the theorems in Props/<prop>.lean"""
-    p = os.path.join(LEAN, "FlatccModel", "Props", prop + ".lean")
-    code = strip_lean_comments(open(p).read())
-    ns, names = [], []
-    for line in code.split("\n"):
-        m = re.match(r"\s*namespace\s+(\S+)", line)
-        if m:
-            ns.append(m.group(1)); continue
-        m = re.match(r"\s*end\s+(\S+)", line)
-        if m and ns and ns[-1].split(".")[-1] == m.group(1).split(".")[-1]:
-            ns.pop(); continue
-        m = re.match(r"\s*(?:private\s+|protected\s+)?theorem\s+([^\s:({\[]+)", line)
-        if m:
-            names.append(".".join(ns + [m.group(1)]))
+    """Names (fully qualified) of the theorems in Props/<prop>.lean and Props/<prop>_*.lean"""
+    names = []
+    for mod in prop_files(prop):
+        p = os.path.join(LEAN, "FlatccModel", "Props", mod + ".lean")
+        code = strip_lean_comments(open(p).read())
+        ns = []
+        for line in code.split("\n"):
+            m = re.match(r"\s*namespace\s+(\S+)", line)
+            if m:
+                ns.append(m.group(1)); continue
+            m = re.match(r"\s*end\s+(\S+)", line)
+            if m and ns and ns[-1].split(".")[-1] == m.group(1).split(".")[-1]:
+                ns.pop(); continue
+            m = re.match(r"\s*(?:private\s+|protected\s+)?theorem\s+([^\s:({\[]+)", line)
+            if m:
+                names.append(".".join(ns + [m.group(1)]))
     return names
 
 
@@ -156,7 +164,7 @@ def audit_axioms(prop, workdir):
     """Runs `#print axioms` on every theorem of Props/<prop>.lean.
     Returns (list of {name, axioms, ok}, log)."""
     names = prop_theorems(prop)
-    src = "import FlatccModel.Props.%s\n" % prop + "".join("#print axioms %s\n" % n for n in names)
+    src = "".join("import FlatccModel.Props.%s\n" % m for m in prop_files(prop)) + "".join("#print axioms %s\n" % n for n in names)
     f = os.path.join(workdir, "axioms_%s.lean" % prop)
     open(f, "w").write(src)
     lk = _lock()
